@@ -393,6 +393,12 @@ def workersAlive (s : St) : List Nat :=
     | some t => (t.kind == .txw || t.kind == .rxw || t.kind == .recon) && t.pc != .done
     | none => false)
 
+/-- the threads' own steps, without a fault of the environment (no failing send, no connection closed or refused, no
+missing reply): `o = 0`, or `o = 2` (a heartbeat is due / the request is parked) -/
+def internal : Act → Prop
+  | .th _ o => o = 0 ∨ o = 2
+  | _ => False
+
 /-- the steps of existing threads that need nothing from the environment: `o = 0`, and `o = 1` for a `readline` that
 finds the connection closed -/
 def internalStep (cfg : Cfg) (s : St) (i : Nat) : Option St :=
